@@ -40,6 +40,7 @@ DoSendUnrel == UnrelSent < MaxUnrel /\ SendUnrel(lastId + 1)
 Next == \/ \E p \in RelPids, acks \in AckSets : RecvRel(p, acks)
         \/ \E p \in UnrelPids, acks \in AckSets, match \in BOOLEAN : RecvUnrel(p, acks, match)
         \/ \E l \in Levels, k \in SubKinds : DoSubscribe(l, k)
+        \/ \E l \in Levels, i \in 1..MaxSubs : Drain(l, i)
         \/ Stray
         \/ \E o \in Oldest : DoPing(o)
         \/ (Lifecycle /\ (GoAlive \/ Disconnect))
